@@ -42,3 +42,23 @@ pub fn emit(name: &'static str, a: usize, b: usize) {
 		sink(name, a, b);
 	}
 }
+
+/// Last-minute access to the command about to be spawned, after the job's own spawn hook ran.
+pub type SpawnInterceptor =
+	Arc<dyn Fn(&mut process_wrap::tokio::TokioCommandWrap) + Send + Sync>;
+
+thread_local! {
+	static INTERCEPT: RefCell<Option<SpawnInterceptor>> = const { RefCell::new(None) };
+}
+
+/// Install (or remove) the spawn interceptor for the current thread.
+pub fn set_spawn_interceptor(f: Option<SpawnInterceptor>) {
+	INTERCEPT.with(|l| *l.borrow_mut() = f);
+}
+
+pub(crate) fn intercept_spawn(command: &mut process_wrap::tokio::TokioCommandWrap) {
+	let f = INTERCEPT.with(|l| l.borrow().clone());
+	if let Some(f) = f {
+		f(command);
+	}
+}
